@@ -408,8 +408,12 @@ impl Svc {
     let nerr = self.state.get_errors(&m).len();
     let mut items: Vec<String> = Vec::new();
     let mut seen = std::collections::HashSet::new();
-    for (pos, name, local) in &idents {
-      if !seen.insert((pos.0, pos.1)) {
+    // every identifier position, or an even stride through them when C14_MAX_POS caps the number
+    let max_pos: usize =
+      std::env::var("C14_MAX_POS").ok().and_then(|s| s.parse().ok()).unwrap_or(usize::MAX);
+    let stride = if idents.len() > max_pos { idents.len().div_ceil(max_pos.max(1)) } else { 1 };
+    for (i, (pos, name, local)) in idents.iter().enumerate() {
+      if i % stride != 0 || !seen.insert((pos.0, pos.1)) {
         continue;
       }
       let at = format!("{}.{}", pos.0, pos.1);
